@@ -66,6 +66,8 @@ COMPONENTS = [
     Component("auer_single_round_unequal_widths", lambda c: C02.check_single_step(c, "pareto"), strategy=st_auer_widths, quick=600, thorough=20000,
               rule="Auer modeling()/discarding()/pareto_updating() on a stub posterior: 1-2 clearly dominated designs plus 2..5 designs within +-3 widths, "
                    "variance ratios up to 100, round 1..6"),
+    Component("single_step_injected_vogp_ad", lambda c: C02.check_single_step(c, "pareto"), strategy=C02.st_single_ad, quick=150, thorough=5000,
+              rule="VOGP_AD: injected leaves / regions / S / P; covering only when every candidate is at the maximum depth"),
     Component("run_steps_vogp_ad", lambda s: C02.check_run(s, "pareto"), strategy=C02._ad_strategy, quick=16, thorough=400,
               rule="VOGP_AD: P-entries only once every candidate is at the maximum depth"),
 ]
